@@ -22,7 +22,9 @@ def obedient_child(running, log_path=None):
 C29_FORMATS = ["B", "H", "I", "Q", "b", "h", "i", "q", "x", "x", "IH", "QB",
                "HB", "3H", "l", "L", "HI", "Bq", "hq", "bI",
                # one value, spelled with a byte-order mark
-               "<H", ">I", "=q", "<B"]
+               "<H", ">I", "=q", "<B",
+               # one value followed by pad bytes
+               "Bx", "Hxx", "hx"]
 C29_PLAIN = 8      # classes 0..7 derive from Device
 C29_DERIVED = 4    # classes 8..11 derive from class k-8 and re-declare
 
